@@ -283,7 +283,7 @@ func cmdCheck(id, tierName string) int {
 			if tier == 0 && k >= 12 {
 				break
 			}
-			if tier == 1 && k >= 200 {
+			if tier == 1 && k >= 80 {
 				break
 			}
 			rf := replayFile{Harness: res.Name, Label: "", Values: stripProbes(w.Witness), Probes: onlyProbes(w.Witness), Note: "path witness " + w.ID + " " + w.End, Dir: h.dir}
